@@ -156,6 +156,7 @@ static double Now() { struct timespec t; clock_gettime(CLOCK_MONOTONIC, &t); ret
 int main(int argc, char **argv) {
   double limit = argc > 1 ? atof(argv[1]) : 20.0;   // seconds per job
   std::string line;
+  int hangs = 0;
   while (std::getline(std::cin, line)) {
     std::istringstream in(line);
     Job j;
@@ -203,7 +204,11 @@ int main(int argc, char **argv) {
       if (Now() - t0 > limit) { kill(pid, SIGKILL); waitpid(pid, &status, 0); hung = true; break; }
       usleep(500);
     }
-    if (hung) { printf("%s hang\n", j.id.c_str()); }
+    if (hung) {
+      printf("%s hang\n", j.id.c_str());
+      // a tree that hangs once usually hangs hundreds of times: after a few, stop waiting the full limit for each
+      if (++hangs >= 4 && limit > 2.0) limit = 2.0;
+    }
     else if (WIFSIGNALED(status)) { printf("%s crash sig=%d\n", j.id.c_str(), WTERMSIG(status)); }
     else if (WIFEXITED(status) && WEXITSTATUS(status) != 0) { printf("%s crash exit=%d\n", j.id.c_str(), WEXITSTATUS(status)); }
     else { unlink(errpath.c_str()); }
